@@ -64,6 +64,9 @@ func IfaceSource(m *tmpl.Model, pkgName string) string {
 		b.WriteString(")\n\n")
 	}
 	for _, mi := range m.Mocks {
+		if mi.DupOfFirst {
+			continue
+		}
 		fmt.Fprintf(&b, "type %s", mi.IfaceName)
 		if len(mi.TypeParams) > 0 {
 			var tps []string
@@ -159,7 +162,7 @@ func Build(prog *load.Program, sk *tmpl.Skeleton) *Unit {
 		imp[tmpl.SrcPath] = sp
 		u.SrcPkg = sp
 	} else {
-		src, err := parser.ParseFile(u.Fset, "iface.go", IfaceSource(m, tmpl.PkgToken), parser.ParseComments)
+		src, err := parser.ParseFile(u.Fset, "iface.go", IfaceSource(m, m.PkgName()), parser.ParseComments)
 		if err != nil {
 			u.ParseErr = fmt.Errorf("prelude iface: %v", err)
 			return u
